@@ -1417,7 +1417,7 @@ static int _parse_single_range(const char *str, struct _range *range)
     if (range->lo > range->hi)
         goto error;
 
-    if (range->hi - range->lo + 1 > MAX_RANGE ) {
+    if (range->hi - range->lo >= MAX_RANGE ) {  /* n.b. hi - lo + 1 may wrap */
         _error(__FILE__, __LINE__, "Too many hosts in range `%s'", orig);
         free(orig);
         seterrno_ret(ERANGE, 0);
